@@ -84,6 +84,12 @@ def check_table(part, case, table, newick_str, data, samples, tree_key_expected,
         name_to_idx = {str(dp.name): dp.idx for dp in data}
         key_map = {}
         for _, r in clusters.iterrows():
+            if str(int(r["cluster_id"])) not in name_to_idx:
+                if clone_of[str(r["mutation_id"])] != "-1":
+                    part.violation("mutation of a cluster that has no data point is not reported with clone id -1",
+                                   dict(case, mutation=str(r["mutation_id"]), clone=clone_of[str(r["mutation_id"])]))
+                    ok = False
+                continue
             key_map[name_to_idx[str(int(r["cluster_id"]))]] = clone_of[str(r["mutation_id"])]
         key = tracegen.newick_key(tracegen.parse_newick(newick_str), key_map)
     else:
@@ -119,10 +125,16 @@ def table_task(task):
                 # data points are clusters named by their integer id; a cluster table maps 1-3 mutations to each
                 rows = []
                 for dp in data:
-                    dp.name = str(dp.idx + 3)
+                    dp.name = str(2 * dp.idx + 3)
                     for j in range(int(rng.integers(1, 4))):
-                        rows.append({"mutation_id": "m%d_%d" % (dp.idx, j), "cluster_id": dp.idx + 3})
-                clusters = pd.DataFrame(rows)
+                        rows.append({"mutation_id": "m%d_%d" % (dp.idx, j), "cluster_id": 2 * dp.idx + 3})
+                if c % 2 == 0:
+                    # clusters of the cluster file that lost all their mutations on loading have no data point: their
+                    # mutations are still input mutations and are reported with clone id -1
+                    gone = 2 * int(rng.integers(0, n)) + 2
+                    for j in range(int(rng.integers(1, 3))):
+                        rows.append({"mutation_id": "gone%d_%d" % (gone, j), "cluster_id": gone})
+                clusters = pd.DataFrame(rows).sort_values(by=["cluster_id", "mutation_id"]).reset_index(drop=True)
             corners = corner_forests(n)
             label, f = corners[c % len(corners)] if c % 2 == 0 else ("random", gen.random_forest(rng, n, p_outlier=0.25))
             others = [gen.random_forest(rng, n, p_outlier=0.2) for _ in range(2)]
